@@ -405,7 +405,7 @@ func (s *Session) Run() (err error) {
 
 		switch s.currentState() {
 		case WaitingLogon:
-			s.LogonSettings = &LogonSettings{
+			settings := &LogonSettings{
 				HeartBtInt:      incomingLogon.HeartBtInt(),
 				EncryptMethod:   incomingLogon.EncryptMethod(),
 				Password:        incomingLogon.Password(),
@@ -419,8 +419,13 @@ func (s *Session) Run() (err error) {
 			}
 
 			if s.side == sideAcceptor {
-				s.LogonSettings.TargetCompID, s.LogonSettings.SenderCompID = s.LogonSettings.SenderCompID, s.LogonSettings.TargetCompID
+				settings.TargetCompID, settings.SenderCompID = settings.SenderCompID, settings.TargetCompID
 			}
+
+			// send() reads the settings under s.mu from the application's and the timers' goroutines
+			s.mu.Lock()
+			s.LogonSettings = settings
+			s.mu.Unlock()
 
 			if ok, tag, reasonCode := s.checkLogonParams(incomingLogon); !ok {
 				s.sendWithErrorCheck(s.MakeReject(reasonCode, tag, incomingLogon.HeaderBuilder().MsgSeqNum()))
@@ -755,7 +760,11 @@ func (s *Session) Stop() (err error) {
 	// handler below is added: it has to survive to end the session on the peer's answer.
 	s.eventHandler.Clean()
 
-	delayTimer := time.AfterFunc(s.LogonSettings.CloseTimeout, func() {
+	s.mu.Lock()
+	closeTimeout := s.LogonSettings.CloseTimeout
+	s.mu.Unlock()
+
+	delayTimer := time.AfterFunc(closeTimeout, func() {
 		s.cancel()
 	})
 
